@@ -26,8 +26,7 @@ const AUDITED: &[(&str, &str, &str)] = &[
     ("progress_bar.rs", "self.state().state.started = Instant::now().checked_sub(elapsed).unwrap();", "with_elapsed: Instant arithmetic, no I/O"),
     ("progress_bar.rs", "panic!(\"you must acquire the TICKER_TEST lock in your test to use this method\");", "cfg(test) only"),
     ("progress_bar.rs", "debug_assert!(!interval.is_zero());", "ticker interval, no I/O"),
-    ("progress_bar.rs", ".wait_timeout_while(self.stopping.0.lock().unwrap(), interval, |stopped| {", "ticker condvar"),
-    ("progress_bar.rs", "let (_, result) = self .stopping .1 .wait_timeout_while(self.stopping.0.lock().unwrap(), interval, |stopped| { #[cfg(test)]", "ticker condvar"),
+    ("progress_bar.rs", "}) .unwrap();", "Ticker::run: result of Condvar::wait_timeout_while (PoisonError), no I/O"),
     ("state.rs", "debug_assert!(!s.contains('\\t'));", "tab expansion invariant, no I/O"),
     ("multi.rs", "self.internalize(InsertLocation::Before(before.index().unwrap()), pb)", "API misuse: reference bar is not a member"),
     ("multi.rs", "self.internalize(InsertLocation::After(after.index().unwrap()), pb)", "API misuse: reference bar is not a member"),
@@ -62,38 +61,50 @@ fn audit_panic_sites(s: &mut Session) {
         };
         let lines: Vec<&str> = src.lines().collect();
         let end = lines.iter().position(|l| l.starts_with("mod tests") || l.starts_with("mod test ")).unwrap_or(lines.len());
-        let mut stmt_start = 0usize;
+        let code_of = |l: &str| -> String { l.split("//").next().unwrap_or("").trim().to_string() };
         for i in 0..end {
-            let l = lines[i].trim();
-            let code = l.split("//").next().unwrap_or("").trim();
+            let code = code_of(lines[i]);
             let hit = [".unwrap()", ".expect(", "panic!(", "unreachable!(", "assert!(", "assert_eq!(", "assert_ne!(", "unimplemented!(", "todo!("]
                 .iter()
                 .any(|p| code.contains(p));
-            if hit {
-                sites += 1;
-                // the statement: from the line after the previous statement end up to the end of this one
-                let mut j = i;
-                while j + 1 < end && !(lines[j].trim_end().ends_with(';') || lines[j].trim_end().ends_with('{') || lines[j].trim_end().ends_with('}')) {
-                    j += 1;
-                }
-                let stmt: String = lines[stmt_start..=j]
-                    .iter()
-                    .map(|x| x.split("//").next().unwrap_or("").trim())
-                    .filter(|x| !x.is_empty())
-                    .collect::<Vec<_>>()
-                    .join(" ");
-                let ok = is_lock_unwrap(&stmt) || AUDITED.iter().any(|(f, t, _)| *f == file && *t == stmt);
-                if !ok {
-                    s.fail(
-                        "unaudited-unwrap-site",
-                        format!("src/{file}:{}: `{stmt}` is not one of the audited panic sites (does it consume an io::Result?)", i + 1),
-                        format!("static audit of src/{file}:{} `{}`", i + 1, code),
-                    );
+            if !hit {
+                continue;
+            }
+            sites += 1;
+            // the site text: the line itself; a method-chain continuation line (starting with '.')
+            // is prefixed with the preceding lines of the chain; an opening macro call is
+            // completed up to its closing line
+            let mut parts = vec![code.clone()];
+            let mut k = i;
+            while parts[0].starts_with('.') && k > 0 {
+                k -= 1;
+                let c = code_of(lines[k]);
+                if !c.is_empty() {
+                    parts.insert(0, c);
                 }
             }
-            let t = lines[i].trim_end();
-            if t.ends_with(';') || t.ends_with('{') || t.ends_with('}') || t.trim().is_empty() || t.trim().starts_with("//") || t.trim().starts_with("#[") {
-                stmt_start = i + 1;
+            let mut k = i;
+            while parts.last().unwrap().ends_with('(') || (code.ends_with("!(") && !parts.last().unwrap().ends_with(");")) {
+                k += 1;
+                if k >= end {
+                    break;
+                }
+                let c = code_of(lines[k]);
+                if !c.is_empty() {
+                    parts.push(c);
+                }
+            }
+            let stmt = parts.join(" ");
+            let ok = is_lock_unwrap(&stmt) || AUDITED.iter().any(|(f, t, _)| *f == file && *t == stmt);
+            if std::env::var("C18_LIST_SITES").is_ok() {
+                println!("SITE {file}:{} {} `{stmt}`", i + 1, if ok { "ok" } else { "UNAUDITED" });
+            }
+            if !ok {
+                s.fail(
+                    "unaudited-unwrap-site",
+                    format!("src/{file}:{}: `{stmt}` is not one of the audited panic sites (does it consume an io::Result?)", i + 1),
+                    format!("static audit of src/{file}:{} `{}`", i + 1, code),
+                );
             }
         }
     }
